@@ -52,6 +52,7 @@ AT_LIMIT = {
     # an extension-less script: its language comes from the shebang line
     "tool": ("python", "#!/usr/bin/env python3\ndef f(x):\n    print(x)\n    return x * 4242\n", None),
     "unwrap-with-tests.rs": ("rust", _RS_TESTS, None),
+    "std-net-with-header.rs": ("rust", "/* Copyright (c) Example Corp.\n * Licensed under MIT. */\nuse std::net::TcpStream;\n\nasync fn connect() {\n    let s = TcpStream::connect(\"127.0.0.1:80\");\n    drop(s);\n}\n", None),
     "tokio-net.rs": ("rust", "use tokio::net::TcpStream;\n\nasync fn connect() {\n    let s = TcpStream::connect(\"127.0.0.1:80\").await;\n    drop(s);\n}\n\n"
                              "async fn nap() {\n    std::thread::sleep(std::time::Duration::from_secs(1));\n}\n", None),
     "srp-at-loc-limit.py": ("python", _SRP_PY, {"srp": {"max_loc": 7, "max_methods": 3}}),
@@ -137,12 +138,12 @@ def h_edits(ctx):
     lines = text.rstrip("\n").split("\n")
     n = len(lines)
     cm = "#" if lang == "python" else "//"
-    edit = ctx.pick("edit", ("insert-blank", "insert-indented-blank", "insert-comment", "insert-non-ascii-comment", "insert-comment-with-old-code", "trailing-whitespace", "reindent-x2", "crlf", "bom",
+    edit = ctx.pick("edit", ("insert-blank", "insert-indented-blank", "insert-comment", "insert-non-ascii-comment", "insert-comment-with-old-code", "insert-block-comment", "trailing-whitespace", "reindent-x2", "crlf", "bom",
                              "append-code", "two-edits", "rename-locals"))
     base = _lint(files, config)
     shift, with_col = None, True
     new = None
-    if edit in ("insert-blank", "insert-indented-blank", "insert-comment", "insert-non-ascii-comment", "insert-comment-with-old-code", "two-edits"):
+    if edit in ("insert-blank", "insert-indented-blank", "insert-comment", "insert-non-ascii-comment", "insert-comment-with-old-code", "insert-block-comment", "two-edits"):
         q = ctx.pick("insert_before_line", tuple(range(1, n + 2)))
         if q == 1 and lines[0].startswith("#!"):
             ctx.assume(False)      # a line above the shebang is not a meaning-preserving edit (the shebang must come first)
@@ -159,6 +160,10 @@ def h_edits(ctx):
                                            "typescript": "console.log(3975); const limit = 4409; import fs from 'fs';",
                                            "javascript": "console.log(3975); const limit = 4409; var fs = require('fs');",
                                            "rust": "use std::net::TcpStream; let v = x.unwrap(); let w = y.clone().clone(); std::thread::sleep(d);"}[lang]
+        if edit == "insert-block-comment":
+            if lang == "python":
+                ctx.assume(False)       # no block comments in Python
+            ins = ind + "/* an unrelated remark */"
         new_lines = lines[:q - 1] + [ins] + lines[q - 1:]
         delta = 1
         if edit == "two-edits":
@@ -195,9 +200,9 @@ def h_edits(ctx):
     elif edit == "append-code":
         # another function that happens to reuse local names of the code above, with other types
         tail = {"python": ["", "", "def unrelated_tail(value):", "    s = []", "    out = {}", "    result = 0", "    it = None", "    return value"],
-                "typescript": ["", "function unrelatedTail(value: string): string {", "  return value;", "}"],
-                "javascript": ["", "function unrelatedTail(value) {", "  return value;", "}"],
-                "rust": ["", "fn unrelated_tail(value: String) -> String {", "    value", "}"]}[lang]
+                "typescript": ["", "/* helpers */", "function unrelatedTail(value: string): string {", "  return value;", "}"],
+                "javascript": ["", "/* helpers */", "function unrelatedTail(value) {", "  return value;", "}"],
+                "rust": ["", "/* helpers */", "fn unrelated_tail(value: String) -> String {", "    value", "}"]}[lang]
         new = "\n".join(lines + tail) + "\n"
     edited = dict(files)
     edited[main] = new
